@@ -60,6 +60,16 @@ def check(F, mon, c, texts, header_flag, delimiter, quoting, lineterm, via, info
             fd, path = tempfile.mkstemp(suffix=".csv")
             with os.fdopen(fd, "w", encoding="utf-8", newline="") as f:
                 f.write(text)
+            # every read is faithful to the FILE: an earlier read of the same path whose result the caller then changed
+            # (a cell, a column name) leaves no trace
+            st0, t0, e0 = attempt(lambda: read_csv(path, delimiter=delimiter, has_header=header_flag))
+            if st0 == "ok" and isinstance(t0, Table) and len(t0.cols()):
+                try:
+                    t0.rename_column(t0.column_names()[0], "renamed by the caller")
+                    if len(t0):
+                        t0[0, 0] = "changed by the caller"
+                except Exception:      # noqa: BLE001
+                    pass
             st, t, e = attempt(lambda: read_csv(path, delimiter=delimiter, has_header=header_flag))
         elif via.startswith("open:") or via.startswith("path:"):
             # a real file in another encoding: opened by the caller (the file object decodes) or named with encoding=...
